@@ -110,6 +110,30 @@ func main() {
 					fn = id.Name + "." + fn
 				}
 			}
+			if want["rename"] {
+				// rename each local variable declared with := (all its uses in this file share the ast.Object)
+				byObj := map[*ast.Object][]*ast.Ident{}
+				ast.Inspect(fd.Body, func(nd ast.Node) bool {
+					if id, ok := nd.(*ast.Ident); ok && id.Obj != nil && id.Obj.Kind == ast.Var {
+						byObj[id.Obj] = append(byObj[id.Obj], id)
+					}
+					return true
+				})
+				for obj, ids := range byObj {
+					as, ok := obj.Decl.(*ast.AssignStmt)
+					if !ok || as.Tok != token.DEFINE || obj.Name == "_" || as.Pos() < fd.Body.Pos() {
+						continue
+					}
+					// one mutant: all occurrences renamed (encoded as several edits joined with \x00)
+					var parts []string
+					for _, id := range ids {
+						parts = append(parts, fmt.Sprintf("%d:%d", off(id.Pos()), off(id.End())))
+					}
+					n++
+					enc.Encode(mut{ID: fmt.Sprintf("rename-%05d", n), File: rel, Start: -1, End: -1, Repl: obj.Name + "Renamed\x00" + strings.Join(parts, ","), Op: "rename",
+						Func: fn, Line: fset.Position(as.Pos()).Line, Text: obj.Name})
+				}
+			}
 			var condStack []ast.Expr
 			_ = condStack
 			ast.Inspect(fd.Body, func(nd ast.Node) bool {
@@ -129,6 +153,30 @@ func main() {
 						boundMuts(s.Cond, func(b *ast.BinaryExpr, repl string) {
 							emit(fn, "bound", b.OpPos, b.OpPos+token.Pos(len(b.Op.String())), repl)
 						})
+					}
+				case *ast.BinaryExpr:
+					if want["flipcmp"] {
+						var op string
+						switch s.Op {
+						case token.LSS:
+							op = ">"
+						case token.LEQ:
+							op = ">="
+						case token.GTR:
+							op = "<"
+						case token.GEQ:
+							op = "<="
+						case token.EQL:
+							op = "=="
+						case token.NEQ:
+							op = "!="
+						}
+						if op != "" {
+							xs := string(src[off(s.X.Pos()):off(s.X.End())])
+							ys := string(src[off(s.Y.Pos()):off(s.Y.End())])
+							// an untyped constant on the left of == / != is fine; nil == x too
+							emit(fn, "flipcmp", s.X.Pos(), s.Y.End(), ys+" "+op+" "+xs)
+						}
 					}
 				case *ast.BlockStmt:
 					if want["delstmt"] {
